@@ -2,6 +2,7 @@ import SdJwt.Lemmas.Strip
 import SdJwt.Lemmas.RestoreAll
 import SdJwt.Lemmas.Complete
 import SdJwt.Lemmas.MarkInv
+import SdJwt.Lemmas.EndToEnd
 /-!
 # C01 — issuance round trip returns exactly the original claims and their paths
 
@@ -133,6 +134,92 @@ example :
     · exact ⟨⟨"dg1", some "a", .num 1 0⟩, by simp; exact ⟨by decide, rfl⟩, by simp [fromBase64]⟩
     · exact ⟨⟨"dg0", none, .str "y"⟩, by simp; exact ⟨by decide, rfl⟩, by simp [fromBase64]⟩
   · decide
+  · intro e he
+    simp only [List.mem_cons, List.not_mem_nil, or_false] at he
+    rcases he with rfl | rfl
+    · exact ⟨"dg0", by simp, rfl⟩
+    · exact ⟨"dg1", by simp, rfl⟩
+
+/-- **C01, end to end in the model: `Holder::verify(Issuer(C, M).encode())`.**
+For every claims object `C` (a conformant tree `obj ms` with no digests in it, not using the names
+`_sd_alg` / `cnf`), every list of path strings under which marking is defined (|M| ≥ 1; each path
+reaches a not yet hidden node, nested before enclosing, each digest new), every choice of decoy
+digests (distinct, new to the tree) and optional holder key (a plain value): serialise the
+issuer model's output as `jwt~d₁~…~dₙ~` with the disclosure strings in ANY order; assume of the
+runtime only that the JWT library returns the header and the payload that were signed
+(`hsig`), that each string decodes to the disclosure it was made from and hashes to its digest
+(`hstr`), and that no segment contains `~`.  Then the holder model accepts and returns that
+header and exactly the original claims — plus `cnf` for a bound token — with no `_sd`,
+`_sd_alg` or placeholder left. -/
+theorem C01_end_to_end (rt : Rt) (mk : Nat → Option String → J → String)
+    (paths : List String) (addr : List (List String × String)) (ms : MMems) (Tn : MJ)
+    (ds : List SDisc) (decoys : Option (List String)) (cnf : Option MJ) (jwt : String) (header : J)
+    (strs : List String)
+    (wf : (MJ.obj ms none).WF) (hplain : (MJ.obj ms none).digests = [])
+    (hk1 : "_sd_alg" ∉ ms.keys) (hk2 : "cnf" ∉ ms.keys)
+    (hp : ParsedAll paths addr) (h : markAll mk 0 addr (.obj ms none) = some (Tn, ds)) (hne : ds ≠ [])
+    (hdec : ∀ l, decoys = some l → l.Nodup ∧ (∀ g ∈ l, g ∉ Tn.digests))
+    (hX : ∀ X, cnf = some X → X.WF ∧ X.digests = [])
+    (hsig : ∀ payload dsrc,
+      encode (MJ.obj ms none).payload paths mk decoys (cnf.map (·.payload)) = .ok (payload, dsrc) →
+      rt.jwtDecode jwt = .ok (header, payload))
+    (hstr : ∀ s ∈ strs, ∃ e ∈ ds,
+      fromBase64 (rt.env "sha-256") s = .ok ⟨s, e.digest, e.key, e.value⟩)
+    (hnd : (strs.map (rt.hash "sha-256")).Nodup)
+    (hall : ∀ e ∈ ds, ∃ s ∈ strs, rt.hash "sha-256" s = e.digest)
+    (hj : '~' ∉ jwt.toList) (hs : ∀ s ∈ strs, '~' ∉ s.toList) :
+    ∃ ps, Holder.verify rt (assemble jwt strs) = .ok (header, expectedClaims ms cnf, ps) :=
+  holder_verify_issued rt mk paths addr ms Tn ds decoys cnf jwt header strs wf hplain hk1 hk2 hp h hne
+    hdec hX hsig hstr hnd hall hj hs
+
+/-- the issuer model's output is what `C01_end_to_end` starts from: it succeeds and its payload is
+the payload of the finished tree (decoys, `_sd_alg`, `cnf`) -/
+theorem C01_encode_ok (mk : Nat → Option String → J → String) (paths : List String)
+    (addr : List (List String × String)) (ms : MMems) (Tn : MJ) (ds : List SDisc)
+    (decoys : Option (List String)) (cnf : Option MJ) (wf : (MJ.obj ms none).WF)
+    (hp : ParsedAll paths addr) (h : markAll mk 0 addr (.obj ms none) = some (Tn, ds))
+    (hk1 : "_sd_alg" ∉ ms.keys) (hk2 : "cnf" ∉ ms.keys) :
+    encode (MJ.obj ms none).payload paths mk decoys (cnf.map (·.payload)) =
+      .ok ((finish Tn decoys (!ds.isEmpty) cnf).payload, ds.map toSrc) :=
+  encode_tree mk paths addr ms none Tn ds decoys cnf wf hp h hk1 hk2
+
+/-- the instance used to show that the hypotheses of `C01_end_to_end` can be met -/
+def exMs : MMems := .clear "a" (.leaf (.num 1 0))
+  (.clear "n" (.arr (.clear (.leaf (.str "x")) (.clear (.leaf (.str "y")) .nil))) .nil)
+def exMk : Nat → Option String → J → String := fun i _ _ => "dg" ++ toString i
+def exRt : Rt where
+  hash := fun _ s => s
+  decodeDisc := fun s =>
+    if s = "dg0" then some (.arr [.str "s0", .str "y"])
+    else if s = "dg1" then some (.arr [.str "s1", .str "a", .num 1 0]) else none
+  decodeClaims := fun _ => none
+  jwtDecode := fun _ => match encode (MJ.obj exMs none).payload ["/n/1", "/a"] exMk none none with
+    | .ok (p, _) => .ok (.null, p)
+    | _ => .err .decoding
+  kbDecode := fun _ _ => .err .decoding
+
+/-- non-vacuity of `C01_end_to_end`: claims `{"a":1,"n":["x","y"]}`, paths `/n/1` then `/a`, a
+runtime whose JWT library returns what the issuer model produced — every hypothesis is met, and
+the holder returns the original claims -/
+example : ∃ ps, Holder.verify exRt (assemble "J" ["dg1", "dg0"]) =
+      .ok (.null, .obj [("a", .num 1 0), ("n", .arr [.str "x", .str "y"])], ps) := by
+  have hwf : (MJ.obj exMs none).WF := by
+    simp [exMs, MJ.WF, MMems.WF, MElems.WF, MMems.keysGt, MMems.marks, J.scalar]
+  refine C01_end_to_end exRt exMk ["/n/1", "/a"] [(["n"], "1"), ([], "a")] exMs _ _ none none "J" .null
+    ["dg1", "dg0"] hwf (by simp [exMs, MJ.digests, MMems.digests, MElems.digests])
+    (by simp [exMs, MMems.keys]) (by simp [exMs, MMems.keys])
+    ⟨parsed_renderPath ["n"] "1", parsed_renderPath [] "a", trivial⟩
+    (rfl : markAll exMk 0 [(["n"], "1"), ([], "a")] (.obj exMs none) = some (_, _)) (by simp)
+    (by simp) (by simp) ?_ ?_ (by decide) ?_ (by decide) (by decide)
+  · intro payload dsrc he
+    have : (Option.map (fun x : MJ => x.payload) none) = none := rfl
+    rw [this] at he
+    simp only [exRt, he]
+  · intro s hs
+    simp only [List.mem_cons, List.not_mem_nil, or_false] at hs
+    rcases hs with rfl | rfl
+    · exact ⟨⟨"dg1", some "a", .num 1 0⟩, by simp; exact ⟨by decide, rfl⟩, by simp [fromBase64, Rt.env, exRt]⟩
+    · exact ⟨⟨"dg0", none, .str "y"⟩, by simp; exact ⟨by decide, rfl⟩, by simp [fromBase64, Rt.env, exRt]⟩
   · intro e he
     simp only [List.mem_cons, List.not_mem_nil, or_false] at he
     rcases he with rfl | rfl
